@@ -533,6 +533,29 @@ func init() {
 			} {
 				emit("corpus", s, "a[1]", "a", "len(a)")
 			}
+			// review findings (model had differed from the code): one-target destructuring, cyclic / diamond / deep
+			// super graphs, number keys at the edge of int64
+			for _, s := range []string{
+				"[a] := [5]", "let [a] := [5]", "[a] := [1, 2]", "[a] := 7", "[a] := null", "[a] := []", "let [a] := 7\nx.mark(a)",
+				"func f() {\n[a] := [1, 2]\nreturn a\n}\nx.mark(f())\nx.mark(a)", "b := [0]\n[b[0]] := [5]\nx.mark(b)", "[a, b] := [5]", "[] := []",
+				"if true {\nlet [a] := [5]\nx.mark(a)\n}\nx.mark(a)", "for [a] in [[1], [2]] {\nx.mark(a)\n}",
+				"a := {\"k\": 1}\na.super := [a]\no := new(a)\nx.mark(o)",
+				"a := {\"k\": 1}\nb := {\"super\": [a], \"j\": 2}\na.super := [b]\no := new(b)\nx.mark(o)",
+				"a := {\"k\": 1, \"init\": func () {\nx.mark(1)\n}}\na.super := [a]\no := new(a)\nx.mark(o.k)",
+				"a := {\"k\": 1}\na.super := [a, {\"j\": 2}]\ntry {\no := new(a)\n} except as c {\nx.mark(c.type)\n}\nx.mark(o)",
+				"a := {\"k\": 1, \"i\": 1}\nb := {\"super\": [a], \"j\": 2, \"i\": 2}\nc := {\"super\": [a], \"h\": 3, \"i\": 3}\no := {\"super\": [b, c], \"g\": 4}\no := new(o)\nx.mark(o.k, o.j, o.h, o.g, o.i)",
+				"a := {\"k\": 1, \"i\": 1}\nb := {\"super\": [a], \"j\": 2, \"i\": 2}\nc := {\"super\": [a], \"h\": 3, \"i\": 3}\no := {\"super\": [c, b], \"g\": 4}\no := new(o)\nx.mark(o.k, o.j, o.h, o.g, o.i)",
+				"a := {\"k\": 1, \"init\": func (c) {\nthis.ka := c\n}}\nb := {\"super\": [a], \"init\": func (c) {\nsuper[0](c + 1)\nthis.kb := c\n}}\nc := {\"super\": [b], \"init\": func (c) {\nsuper[0](c + 1)\nthis.kc := c\n}}\no := {\"super\": [c], \"init\": func (c) {\nsuper[0](c + 1)\nthis.ko := c\n}}\no := new(o, 1)\nx.mark(o.ka, o.kb, o.kc, o.ko, o.k)",
+				"a := {\"k\": 1, \"init\": func () {\nx.mark(1)\n}}\nb := {\"super\": [a]}\nc := {\"super\": [a]}\no := {\"super\": [b, c], \"init\": func () {\nx.mark(len(super), super[0] == super[1])\nlet f := super[0]\nf()\n}}\no := new(o)",
+				"a := {1: \"x\", 2: {\"k\": 3}, \"m\": func () {\nreturn this[1]\n}}\no := new(a)\nx.mark(o.m(), o[2].k)\no[1] := \"y\"\nx.mark(o.m(), a[1])",
+				"a := {1000000000000000000: 1}\nx.mark(a[\"1000000000000000000\"])\na[\"1000000000000000000\"] := 2\nx.mark(a, len(a))",
+				"a := {9223372036854775807: 1, \"9223372036854775808\": 2}\nx.mark(a[\"9223372036854775807\"], a[\"9223372036854775808\"])\na[\"9223372036854775808\"] := 3\nx.mark(len(a))",
+				"a := {\"-9223372036854775808\": 1, \"-9223372036854775809\": 2, \"+5\": 3, 5: 4, \"005\": 5}\nx.mark(a[\"-9223372036854775808\"], a[\"-9223372036854775809\"], a[\"+5\"], a[\"005\"], a[5])",
+				"a := [1, 2, 3]\nx.mark(a[\"+1\"], a[\"01\"], a[\"-1\"])\na[\"-0\"] := 9\nx.mark(a)\nx.mark(a[\"99999999999999999999\"])",
+				"a := [1, 2, 3]\na[\"9223372036854775807\"] := 1",
+			} {
+				emit("corpus (review)", s, "a", "b", "o")
+			}
 			// (1) scope shape x assignment form x where the name was defined
 			for _, df := range c05Defs {
 				for _, sh := range c05Shapes {
